@@ -198,6 +198,11 @@ fn main() {
                     std::process::exit(1);
                 }
             }
+            // a scenario recorded by a real-thread supplement is replayed on the real-thread engine
+            let def = match std::fs::read_to_string(get("file", "")).ok().and_then(|s| serde_json::from_str::<runner::ReplayFile>(&s).ok()) {
+                Some(rf) if rf.scenario.needs_rt() && !def.is_rt() => props::get_rt(&prop, false).unwrap_or(def),
+                _ => def,
+            };
             let code = runner::replay(&def, &get("file", ""), &known);
             std::process::exit(code);
         }
